@@ -1,148 +1,718 @@
-"""Deterministic cooperative 'multiprocessing' for running cutadapt.runners in one OS process.
-Each fake process is a thread; exactly one thread runs at a time; every blocking primitive is a scheduling point."""
-import threading, pickle, io, random, sys, collections
+"""Deterministic cooperative fake `multiprocessing` for running the *unmodified* `cutadapt.runners` inside one OS process.
 
-class Deadlock(Exception): pass
-class Killed(BaseException): pass
+Every fake process is a thread, exactly one of them runs at a time.  Every primitive that is visible to another process
+(`Connection.send/send_bytes/recv/recv_bytes`, `Queue.put/get`, `connection.wait`, `Process.start/join`, the first
+instruction of a started process) is a *scheduling point*: the process announces the operation it is about to perform
+together with its enabledness condition (a `recv` is enabled when the pipe is non-empty, a `join` when the target has
+exited, ...), then the scheduler asks the `chooser` which of the processes whose announced operation is enabled performs
+its operation next; that process performs it atomically and runs on until its next scheduling point.  Deadlock is exact:
+no process has an enabled operation while the main process has not finished => `Deadlock` is raised in the main process.
+`connection.wait` returns an ordered non-empty subset of the ready connections picked by the chooser.
+`Process.start()` pickles and unpickles the process object (spawn semantics: a worker gets its own pipeline and buffers);
+connections and queues unpickle to the same shared object.  `terminate()` / `active_children()` kill fake processes.
 
-class Scheduler:
-    def __init__(self, chooser):
-        self.chooser = chooser            # function(list of runnable task names) -> name
-        self.tasks = {}                   # name -> Task
-        self.current = None
-        self.trace = []
-        self.lock = threading.Lock()
-    def log(self, *ev): self.trace.append(ev)
+All non-determinism goes through one `Chooser` (`choose(n, kind, labels) -> index`), so a run is reproduced by its list of
+choices (`ScriptChooser`), random schedules use `RandomChooser`, and `dfs()` walks the tree of choices systematically.
+
+Import-time binding: `cutadapt.runners` evaluates `multiprocessing.get_context()` and `mpctx.Process` at import.  A second
+copy of that file is loaded under the module name `cutadapt_simrunners` while `get_context` returns the fake context; the
+regular `cutadapt.runners` (real processes) stays untouched.  `run_sim` temporarily points `cutadapt.cli.make_runner` to
+the copy, patches `multiprocessing.connection.wait` / `multiprocessing.active_children` (looked up at call time), replaces
+`sys.stdin` by an object without file descriptor and restores everything afterwards.
+
+Granularity: `fine=True` every primitive is a scheduling point; `fine=False` (coarse) operations that never block and
+only *add* behaviours for the others when done early (send, send_bytes, put, start) are performed without giving up
+control: far fewer schedules, same set of reachable results (used for systematic exploration).
+"""
+import collections
+import importlib.util
+import io
+import itertools
+import os
+import pickle
+import random
+import sys
+import threading
+import time
+
+_HERE = os.path.dirname(os.path.abspath(__file__))
+if os.path.dirname(_HERE) not in sys.path:
+    sys.path.insert(0, os.path.dirname(_HERE))
+
+SIM_MODULE = "cutadapt_simrunners"
+
+
+class Deadlock(BaseException):
+    """no fake process can move and the main process has not finished (BaseException: nothing in cutadapt may swallow it)"""
+
+
+class StepLimit(BaseException):
+    """more scheduling steps than any terminating run needs: livelock"""
+
+
+class Killed(BaseException):
+    """raised inside a fake process that was terminated"""
+
+
+class ProtocolError(Exception):
+    """the code under test used a primitive in a way real multiprocessing would not allow / would garble"""
+
+
+Event = collections.namedtuple("Event", "proc prim conn value")
+
+_CUR = None  # the Sim of the run in progress
+
+
+def _sim():
+    if _CUR is None:
+        raise RuntimeError("fake multiprocessing primitive used outside run_sim")
+    return _CUR
+
+
+# ------------------------------------------------------------------------------------------------
+# choosers
+
+class Chooser:
+    """`choose(n, kind, labels)` -> index < n, n >= 2.  `log` = [(choice, n, kind)] of the run."""
+
+    def __init__(self):
+        self.log = []
+
+    def choose(self, n, kind, labels):
+        c = self.pick(n, kind, labels)
+        if not 0 <= c < n:
+            raise ValueError(f"choice {c} out of range {n}")
+        self.log.append((c, n, kind))
+        return c
+
+    def pick(self, n, kind, labels):
+        raise NotImplementedError
+
+    def choices(self):
+        return [c for c, _, _ in self.log]
+
+
+class RandomChooser(Chooser):
+    def __init__(self, seed):
+        super().__init__()
+        self.rng = seed if isinstance(seed, random.Random) else random.Random(seed)
+
+    def pick(self, n, kind, labels):
+        return self.rng.randrange(n)
+
+
+class ScriptChooser(Chooser):
+    """forced prefix of choices, then `tail`: "first" (index 0) or a seed / Random for random continuation"""
+
+    def __init__(self, prefix, tail="first"):
+        super().__init__()
+        self.prefix = list(prefix)
+        self.rng = None if tail == "first" else (tail if isinstance(tail, random.Random) else random.Random(tail))
+        self.mismatch = False
+
+    def pick(self, n, kind, labels):
+        i = len(self.log)
+        if i < len(self.prefix):
+            c = self.prefix[i]
+            if c >= n:  # the tree changed under us (non-deterministic code under test)
+                self.mismatch = True
+                return n - 1
+            return c
+        return self.rng.randrange(n) if self.rng else 0
+
+
+def dfs(run_one, budget_s=60.0, max_runs=None):
+    """Systematic depth-first walk over the tree of choices (stateless model checking): `run_one(chooser)` performs a
+    complete run; the next run forces the longest prefix of the previous run's choices that still has an untried
+    alternative, takes that alternative and continues with first alternatives.
+    Yields (chooser, result of run_one).  `dfs.exhausted` is set on the generator's `state` dict.
+    Returns when the tree is exhausted, the time budget is used up or max_runs is reached."""
+    state = dfs.state = dict(runs=0, exhausted=False, mismatch=0)
+    t0 = time.time()
+    prefix = []
+    while True:
+        ch = ScriptChooser(prefix)
+        res = run_one(ch)
+        state["runs"] += 1
+        if ch.mismatch:
+            state["mismatch"] += 1
+        yield ch, res
+        log = ch.log
+        i = len(log) - 1
+        while i >= 0 and log[i][0] + 1 >= log[i][1]:
+            i -= 1
+        if i < 0:
+            state["exhausted"] = True
+            return
+        prefix = [c for c, _, _ in log[:i]] + [log[i][0] + 1]
+        if time.time() - t0 > budget_s or (max_runs and state["runs"] >= max_runs):
+            return
+
+
+def ordered_subsets(n):
+    """all ordered non-empty subsets of range(n): full set in natural order first (what real `wait` typically returns)"""
+    out = []
+    for k in range(n, 0, -1):
+        out.extend(itertools.permutations(range(n), k))
+    return out
+
+
+# ------------------------------------------------------------------------------------------------
+# scheduler
 
 class Task:
-    def __init__(self, sched, name, fn):
-        self.sched=sched; self.name=name; self.fn=fn
-        self.go=threading.Event(); self.done=False; self.blocked_on=None  # predicate or None
-        self.killed=False; self.exc=None
-        self.thread=threading.Thread(target=self._run, daemon=True)
+    def __init__(self, sim, name, fn):
+        self.sim = sim
+        self.name = name
+        self.fn = fn
+        self.wake = threading.Event()
+        self.done = False
+        self.killed = False
+        self.deadlocked = False
+        self.pred = None          # enabledness of the announced operation (None = always enabled)
+        self.what = "begin"
+        self.exc = None
+        self.thread = None
+
+    def enabled(self):
+        return not self.done and (self.pred is None or self.pred())
+
     def _run(self):
-        self.go.wait(); self.go.clear()
+        self.wake.wait()
+        self.wake.clear()
         try:
-            if not self.killed: self.fn()
-        except Killed: pass
-        except BaseException as e: self.exc=e
-        self.done=True
-        SCHED._yield_from(self, finished=True)
-
-SCHED=None
-MAIN=None
-
-class Sched(Scheduler):
-    def runnable(self):
-        return [t for t in self.tasks.values() if not t.done and (t.blocked_on is None or t.blocked_on())]
-    def _switch(self, me):
-        # pick next task; called by `me` (which is about to wait)
-        r=self.runnable()
-        if not r:
-            alive=[t.name for t in self.tasks.values() if not t.done]
-            self.deadlock=alive
-            # wake main with deadlock error
-            m=self.tasks["main"]; m.deadlocked=True; nxt=m
-        else:
-            name=self.chooser(sorted(t.name for t in r)); nxt=self.tasks[name]
-        self.log("run", nxt.name)
-        if nxt is me: return
-        nxt.go.set()
-        me.go.wait(); me.go.clear()
-        if me.killed: raise Killed()
-        if getattr(me,"deadlocked",False): me.deadlocked=False; raise Deadlock(self.deadlock)
-    def block(self, pred):
-        me=self.cur()
-        me.blocked_on=pred
-        self._switch(me)
-        me.blocked_on=None
-    def yield_(self):
-        self.block(None)
-    def _yield_from(self, me, finished):
-        r=self.runnable()
-        if not r:
-            m=self.tasks["main"]
-            if not m.done: m.deadlocked=True; self.deadlock=[t.name for t in self.tasks.values() if not t.done]; m.go.set()
+            if not self.killed:
+                self.sim.log("begin", None, None)
+                self.fn()
+        except Killed:
             return
-        name=self.chooser(sorted(t.name for t in r)); self.log("run",name); self.tasks[name].go.set()
-    def cur(self):
-        th=threading.current_thread()
-        for t in self.tasks.values():
-            if t.thread is th: return t
-        return self.tasks["main"]
+        except BaseException as e:  # a real process would die with a traceback
+            self.exc = e
+            self.sim.task_errors.append((self.name, f"{type(e).__name__}: {e}"))
+        if self.killed:
+            return
+        self.done = True
+        self.sim.log("exit", None, None)
+        self.sim._dispatch(None)
 
-_REG={}
+
+class Sim:
+    def __init__(self, chooser, fine=True, max_steps=200000):
+        self.chooser = chooser
+        self.fine = fine
+        self.max_steps = max_steps
+        self.tasks = []
+        self.by_thread = {}
+        self.events = []
+        self.objects = []         # pipes' connection ends and queues, by registry index (for unpickling)
+        self.task_errors = []
+        self.protocol_errors = []
+        self.deadlock = None
+        self.steps = 0
+        self.opened = []          # output paths opened by FileOpener.xopen(…, "wb") in order (= OutputFiles.binary_files())
+        main = Task(self, "main", None)
+        main.thread = threading.current_thread()
+        self.main = main
+        self.tasks.append(main)
+        self.by_thread[main.thread] = main
+
+    # -- bookkeeping
+    def cur(self):
+        return self.by_thread.get(threading.current_thread())
+
+    def log(self, prim, conn, value):
+        t = self.cur()
+        self.events.append((t.name if t else "?", prim, conn, value))
+
+    def register(self, obj):
+        self.objects.append(obj)
+        return len(self.objects) - 1
+
+    # -- scheduling
+    def sync(self, pred=None, what="op", force=False):
+        """Scheduling point of the current task: returns when this task has been chosen to perform the announced operation."""
+        me = self.cur()
+        if me is None:
+            raise RuntimeError("fake multiprocessing primitive used from a foreign thread")
+        if me.killed:
+            raise Killed()
+        if not self.fine and pred is None and not force:
+            return
+        me.pred = pred
+        me.what = what
+        self._dispatch(me)
+        me.pred = None
+
+    def _dispatch(self, me):
+        self.steps += 1
+        en = [t for t in self.tasks if t.enabled()]
+        if self.steps > self.max_steps:
+            en = []
+            self.deadlock = ["step limit"]
+        if not en:
+            if self.deadlock is None:
+                self.deadlock = [f"{t.name}:{t.what}" for t in self.tasks if not t.done]
+            nxt = self.main
+            nxt.deadlocked = True
+        elif len(en) == 1:
+            nxt = en[0]
+        else:
+            nxt = en[self.chooser.choose(len(en), "sched", [f"{t.name}:{t.what}" for t in en])]
+        if nxt is not me:
+            nxt.wake.set()
+            if me is None:
+                return
+            me.wake.wait()
+            me.wake.clear()
+        if me.killed:
+            raise Killed()
+        if me.deadlocked:
+            me.deadlocked = False
+            raise (StepLimit if self.deadlock == ["step limit"] else Deadlock)(self.deadlock)
+
+    def spawn(self, name, fn):
+        t = Task(self, name, fn)
+        t.thread = threading.Thread(target=t._run, name="fakemp-" + name, daemon=True)
+        self.tasks.append(t)
+        self.by_thread[t.thread] = t
+        t.thread.start()
+        return t
+
+    def kill(self, t):
+        """terminate a sleeping fake process: it unwinds (finally / with blocks run) while the caller waits"""
+        if t.done or t is self.main:
+            return
+        t.killed = True
+        t.done = True
+        t.wake.set()
+        if t.thread is not threading.current_thread():
+            t.thread.join(10)
+
+    def shutdown(self):
+        """kill every leftover fake process and join all threads"""
+        for t in self.tasks[1:]:
+            self.kill(t)
+        leaked = []
+        for t in self.tasks[1:]:
+            t.thread.join(10)
+            if t.thread.is_alive():
+                leaked.append(t.name)
+        return leaked
+
+
+# ------------------------------------------------------------------------------------------------
+# the fake primitives
+
+def _lookup(ix):
+    return _sim().objects[ix]
+
+
+def _describe(obj):
+    if isinstance(obj, bool) or not isinstance(obj, int):
+        if isinstance(obj, tuple) and len(obj) == 2 and isinstance(obj[0], BaseException):
+            return f"<exc {type(obj[0]).__name__}: {str(obj[0])[:120]}>"
+        return f"<{type(obj).__name__}>"
+    return obj
+
+
+class _Pipe:
+    def __init__(self, sim):
+        self.buf = collections.deque()
+        self.label = f"pipe{sum(1 for o in sim.objects if isinstance(o, Conn)) // 2}"
+
+
 class Conn:
-    """one end of a simplex pipe"""
-    def __init__(self, q, cid): self.q=q; self.cid=cid
-    def send(self, obj): SCHED.log("send", self.cid, repr(obj)[:40]); self.q.append(("obj", pickle.dumps(obj))); SCHED.yield_()
-    def send_bytes(self, b): SCHED.log("send_bytes", self.cid, len(b)); self.q.append(("bytes", bytes(b))); SCHED.yield_()
-    def _get(self):
-        if not self.q: SCHED.block(lambda: bool(self.q))
-        return self.q.popleft()
+    """one end of a simplex pipe (`multiprocessing.connection.Connection`)"""
+
+    def __init__(self, pipe, readable, writable, sim):
+        self._pipe = pipe
+        self.readable = readable
+        self.writable = writable
+        self._ix = sim.register(self)
+
+    def __reduce__(self):
+        return (_lookup, (self._ix,))
+
+    @property
+    def label(self):
+        return self._pipe.label
+
+    def send(self, obj):
+        sim = _sim()
+        if not self.writable:
+            raise OSError("connection is read-only")
+        data = pickle.dumps(obj)   # like the real thing: pickled by the sender, at send time
+        sim.sync(None, f"send {self.label}")
+        self._pipe.buf.append(("obj", data))
+        sim.log("send", self._pipe, _describe(obj))
+
+    def send_bytes(self, buf, offset=0, size=None):
+        sim = _sim()
+        if not self.writable:
+            raise OSError("connection is read-only")
+        b = bytes(memoryview(buf))[offset:(None if size is None else offset + size)]
+        sim.sync(None, f"send_bytes {self.label}")
+        self._pipe.buf.append(("bytes", b))
+        sim.log("send_bytes", self._pipe, b)
+
+    def _take(self, kind, prim):
+        sim = _sim()
+        if not self.readable:
+            raise OSError("connection is write-only")
+        sim.sync(lambda: bool(self._pipe.buf), f"{prim} {self.label}", force=True)
+        k, v = self._pipe.buf.popleft()
+        if k != kind:
+            sim.protocol_errors.append(f"{prim} on {self.label} but the next message was sent with {'send' if k == 'obj' else 'send_bytes'}")
+            if kind == "obj":
+                raise ProtocolError(sim.protocol_errors[-1])
+        return v
+
     def recv(self):
-        k,v=self._get(); assert k=="obj"; o=pickle.loads(v); SCHED.log("recv", self.cid, repr(o)[:40]); return o
-    def recv_bytes(self):
-        k,v=self._get(); assert k=="bytes"; SCHED.log("recv_bytes", self.cid, len(v)); return v
-    def ready(self): return bool(self.q)
-    def __reduce__(self): return (_lookup, (self.cid,))
-def _lookup(cid): return _REG[cid]
+        obj = pickle.loads(self._take("obj", "recv"))
+        _sim().log("recv", self._pipe, _describe(obj))
+        return obj
+
+    def recv_bytes(self, maxlength=None):
+        v = self._take("bytes", "recv_bytes")
+        _sim().log("recv_bytes", self._pipe, v)
+        return v
+
+    def poll(self, timeout=0.0):
+        return bool(self._pipe.buf)
+
+    def ready(self):
+        return bool(self._pipe.buf)
+
+    def close(self):
+        pass
+
+    def fileno(self):
+        raise io.UnsupportedOperation("fake connection")
+
 
 class Queue:
-    def __init__(self):
-        self.q=collections.deque(); self.cid="Q%d"%len(_REG); _REG[self.cid]=self
-    def put(self, x): SCHED.log("put", x); self.q.append(x); SCHED.yield_()
-    def get(self):
-        if not self.q: SCHED.block(lambda: bool(self.q))
-        x=self.q.popleft(); SCHED.log("get", x); return x
-    def __reduce__(self): return (_lookup,(self.cid,))
+    """`multiprocessing.Queue`: FIFO, unbounded; `put` is the linearisation point"""
+
+    def __init__(self, sim):
+        self.q = collections.deque()
+        self.label = "queue"
+        self._ix = sim.register(self)
+
+    def __reduce__(self):
+        return (_lookup, (self._ix,))
+
+    def put(self, x, block=True, timeout=None):
+        sim = _sim()
+        data = pickle.dumps(x)
+        sim.sync(None, "put")
+        self.q.append(data)
+        sim.log("put", self, _describe(x))
+
+    def get(self, block=True, timeout=None):
+        sim = _sim()
+        sim.sync(lambda: bool(self.q), "get", force=True)
+        x = pickle.loads(self.q.popleft())
+        sim.log("get", self, _describe(x))
+        return x
+
+    def empty(self):
+        return not self.q
+
+    def close(self):
+        pass
+
+    def join_thread(self):
+        pass
+
+    def cancel_join_thread(self):
+        pass
+
 
 class Process:
-    _count=0
-    def __init__(self): self.daemon=False; self._task=None
-    def start(self):
-        Process._count+=1
-        clone=pickle.loads(pickle.dumps(self))      # spawn semantics: own copy of pipeline / proxy files
-        name=f"{type(self).__name__}{Process._count}"
-        t=Task(SCHED, name, clone.run); SCHED.tasks[name]=t; self._task=t; t.thread.start()
-        SCHED.log("start", name)
-    def join(self):
-        t=self._task
-        if not t.done: SCHED.block(lambda: t.done)
-    def terminate(self):
-        t=self._task
-        if not t.done: t.killed=True; t.done=True; t.go.set(); SCHED.log("terminate", t.name)
+    """`multiprocessing.Process` with spawn semantics; subclassed by ReaderProcess / WorkerProcess of the loaded copy"""
+
+    def __init__(self, group=None, target=None, name=None, args=(), kwargs=None, daemon=None):
+        self._target, self._args, self._kwargs = target, tuple(args), dict(kwargs or {})
+        self.daemon = bool(daemon)
+        self._task = None
+        self.name = name or type(self).__name__
+
+    def run(self):
+        if self._target:
+            self._target(*self._args, **self._kwargs)
+
     def __getstate__(self):
-        d=self.__dict__.copy(); d["_task"]=None; return d
+        d = self.__dict__.copy()
+        d["_task"] = None
+        return d
+
+    def start(self):
+        sim = _sim()
+        if self._task is not None:
+            raise AssertionError("cannot start a process twice")
+        clone = pickle.loads(pickle.dumps(self))
+        d = clone.__dict__
+        if "_id" in d and "_read_pipe" in d:          # WorkerProcess
+            name = f"worker{d['_id']}"
+            _label(d.get("_read_pipe"), f"in{d['_id']}")
+            _label(d.get("_write_pipe"), f"out{d['_id']}")
+        elif "_file_format_connection" in d:           # ReaderProcess
+            name = "reader"
+            _label(d["_file_format_connection"], "fmt")
+            for i, c in enumerate(d.get("connections", ())):
+                _label(c, f"in{i}")
+        else:
+            name = f"proc{len(sim.tasks)}"
+        if any(t.name == name for t in sim.tasks):
+            name += f"#{len(sim.tasks)}"
+        self._task = sim.spawn(name, clone.run)
+        sim.log("start", None, name)
+        sim.sync(None, "started")
+
+    def join(self, timeout=None):
+        sim = _sim()
+        t = self._task
+        if t is None:
+            raise AssertionError("can only join a started process")
+        sim.sync(lambda: t.done, f"join {t.name}", force=True)
+        sim.log("join", None, t.name)
+
+    def terminate(self):
+        sim = _sim()
+        if self._task is not None and not self._task.done:
+            sim.log("terminate", None, self._task.name)
+            sim.kill(self._task)
+
+    kill = terminate
+
+    def is_alive(self):
+        return self._task is not None and not self._task.done
+
+    @property
+    def exitcode(self):
+        t = self._task
+        if t is None or not t.done:
+            return None
+        return -15 if t.killed else (1 if t.exc else 0)
+
+    @property
+    def pid(self):
+        return None if self._task is None else 100000 + _sim().tasks.index(self._task)
+
+
+def _label(conn, label):
+    if isinstance(conn, Conn):
+        conn._pipe.label = label
+
 
 class Context:
-    Process=Process
-    def Pipe(self, duplex=False):
-        q=collections.deque(); cid="P%d"%len(_REG); c=Conn(q,cid); _REG[cid]=c
-        return c, c
-    def Queue(self): return Queue()
+    """what `multiprocessing.get_context()` returns while the copy of runners.py is loaded"""
+    Process = Process
 
-def wait(conns):
-    r=[c for c in conns if c.ready()]
-    if not r:
-        SCHED.block(lambda: any(c.ready() for c in conns)); r=[c for c in conns if c.ready()]
-    r=SCHED.order(r) if hasattr(SCHED,"order") else r
-    SCHED.log("wait", [c.cid for c in r]); return r
+    def Pipe(self, duplex=True):
+        if duplex:
+            raise NotImplementedError("duplex pipes are not used by cutadapt.runners")
+        sim = _sim()
+        p = _Pipe(sim)
+        return Conn(p, True, False, sim), Conn(p, False, True, sim)
+
+    def Queue(self, maxsize=0):
+        return Queue(_sim())
+
+    def get_start_method(self, allow_none=False):
+        return "spawn"
+
+
+def wait(object_list, timeout=None):
+    """`multiprocessing.connection.wait`: any non-empty subset of the ready connections, in any order"""
+    sim = _sim()
+    conns = list(object_list)
+    sim.sync(lambda: any(c.ready() for c in conns), "wait", force=True)
+    ready = [c for c in conns if c.ready()]
+    if len(ready) > 1:
+        subsets = ordered_subsets(len(ready))
+        pick = subsets[sim.chooser.choose(len(subsets), "wait", [c.label for c in ready])]
+        ready = [ready[i] for i in pick]
+    sim.log("wait", None, tuple(c.label for c in ready))
+    return ready
+
+
+class _Child:
+    def __init__(self, task):
+        self._task = task
+        self.name = task.name
+
+    def terminate(self):
+        sim = _sim()
+        if not self._task.done:
+            sim.log("terminate", None, self._task.name)
+            sim.kill(self._task)
+
+    kill = terminate
+
+    def is_alive(self):
+        return not self._task.done
+
+    def join(self, timeout=None):
+        pass
+
 
 def active_children():
-    class P:
-        def __init__(s,t): s.t=t
-        def terminate(s):
-            if not s.t.done: s.t.killed=True; s.t.done=True; s.t.go.set()
-    return [P(t) for n,t in SCHED.tasks.items() if n!="main" and not t.done]
+    sim = _sim()
+    return [_Child(t) for t in sim.tasks[1:] if not t.done]
 
-def install(chooser):
-    global SCHED
-    import multiprocessing, multiprocessing.connection
-    _REG.clear(); Process._count=0
-    SCHED=Sched(chooser)
-    main=Task(SCHED,"main",None); main.thread=threading.current_thread(); SCHED.tasks["main"]=main
-    multiprocessing.get_context=lambda *a,**k: Context()
-    multiprocessing.connection.wait=wait
-    multiprocessing.active_children=active_children
-    return SCHED
+
+# ------------------------------------------------------------------------------------------------
+# loading the copy of runners.py and running the CLI under the simulation
+
+_simrunners_for = {}
+
+
+def load_simrunners():
+    """second copy of the *current* `cutadapt.runners` source bound to the fake context (re-loaded when `cutadapt` was
+    re-activated from another directory)"""
+    import multiprocessing
+    import cutadapt.runners as real
+    path = real.__file__
+    mod = _simrunners_for.get(path)
+    if mod is not None and sys.modules.get(SIM_MODULE) is mod:
+        return mod
+    old = multiprocessing.get_context
+    multiprocessing.get_context = lambda *a, **k: Context()
+    try:
+        spec = importlib.util.spec_from_file_location(SIM_MODULE, path)
+        mod = importlib.util.module_from_spec(spec)
+        sys.modules[SIM_MODULE] = mod
+        spec.loader.exec_module(mod)
+    finally:
+        multiprocessing.get_context = old
+    assert isinstance(mod.mpctx, Context) and mod.mpctx_Process is Process
+    _simrunners_for.clear()
+    _simrunners_for[path] = mod
+    return mod
+
+
+class _NoFdStdin(io.StringIO):
+    def fileno(self):
+        raise io.UnsupportedOperation("no file descriptor")
+
+
+class SimResult:
+    """status / exc / stderr / stdout / files / stats / json as clirun.CliResult, plus
+    events: list of Event(proc, prim, conn, value) — proc: main | reader | worker<id>; conn: in<w> (reader -> worker w),
+            out<w> (worker w -> main), fmt (file-format handshake), queue; value: the int header, the payload bytes of
+            send_bytes/recv_bytes, or a short description of another object;
+    deadlock: None or the list `process:operation` every live process was blocked in;
+    choices: the schedule [(choice, n, kind)]; opened: basenames of the proxied output files in `binary_files()` order."""
+
+    def __init__(self):
+        self.status = 0
+        self.exc = None
+        self.stderr = self.stdout = ""
+        self.files = {}
+        self.stats = None
+        self.json = None
+        self.events = []
+        self.deadlock = None
+        self.choices = []
+        self.opened = []
+        self.task_errors = []
+        self.protocol_errors = []
+        self.leaked_threads = []
+        self.steps = 0
+
+
+def run_sim(argv, inputs, cores, chooser, fine=True, want_json=False, max_steps=200000):
+    """Run `cutadapt.cli.main(["-j", cores] + argv)` (placeholders as in clirun.run_cli) with the multi-core runner on fake
+    processes scheduled by `chooser`."""
+    global _CUR
+    import multiprocessing
+    import multiprocessing.connection
+    import clirun
+    import cutadapt.cli as cli
+    import cutadapt.files as cfiles
+    if cores < 2:
+        raise ValueError("cores >= 2: one core uses the serial runner")
+    if _CUR is not None:
+        raise RuntimeError("run_sim is not re-entrant")
+    simrunners = load_simrunners()
+    sim = Sim(chooser, fine=fine, max_steps=max_steps)
+    saved = (cli.make_runner, multiprocessing.connection.wait, multiprocessing.active_children, sys.stdin, cfiles.FileOpener.xopen)
+    orig_xopen = cfiles.FileOpener.xopen
+
+    def xopen_logged(self, path, mode):
+        if "w" in mode and threading.current_thread() is sim.main.thread:
+            sim.opened.append(os.path.basename(str(path)))
+        return orig_xopen(self, path, mode)
+
+    out = SimResult()
+    _CUR = sim
+    cli.make_runner = simrunners.make_runner
+    multiprocessing.connection.wait = wait
+    multiprocessing.active_children = active_children
+    sys.stdin = _NoFdStdin()
+    cfiles.FileOpener.xopen = xopen_logged
+    try:
+        res = clirun.run_cli(argv, inputs, cores=cores, want_json=want_json)
+    finally:
+        try:
+            out.leaked_threads = sim.shutdown()
+        finally:
+            (cli.make_runner, multiprocessing.connection.wait, multiprocessing.active_children, sys.stdin, cfiles.FileOpener.xopen) = saved
+            _CUR = None
+    for k in ("status", "exc", "stderr", "stdout", "files", "stats", "json"):
+        setattr(out, k, getattr(res, k))
+    out.events = [Event(p, prim, (c.label if c is not None else None), v) for p, prim, c, v in sim.events]
+    out.deadlock = sim.deadlock
+    out.choices = list(chooser.log)
+    out.opened = sim.opened
+    out.task_errors = sim.task_errors
+    out.protocol_errors = sim.protocol_errors
+    out.steps = sim.steps
+    return out
+
+
+# ------------------------------------------------------------------------------------------------
+# self-test:  python fakemp.py [build-dir]
+
+def _selftest():
+    import hashlib
+    here = os.path.dirname(_HERE)
+    sys.path.insert(0, here)
+    import build as buildmod
+    d = sys.argv[1] if len(sys.argv) > 1 else f"/var/tmp/cutadapt-verif-fakemp-{os.getpid()}"
+    if not os.path.exists(os.path.join(d, "cutadapt")):
+        buildmod.build(d)
+    buildmod.activate(d)
+    import clirun
+    rng = random.Random(5)
+    recs = []
+    for i in range(12):
+        s = "".join(rng.choice("ACGT") for _ in range(30))
+        if i % 3 == 0:
+            s = s[:12] + "AAAGGGCCC" + s[12:]
+        recs.append((f"r{i}", s, "I" * len(s)))
+    inputs = {"in.fastq": clirun.fastq(recs)}
+    argv = ["--buffer-size", "200", "-a", "AAAGGGCCC", "-o", "{dir}/out.fastq", "--info-file", "{dir}/info.txt", "{dir}/in.fastq"]
+    base = clirun.run_cli(argv, inputs, cores=1, want_json=False)
+    t0 = time.time()
+    seen = set()
+    for seed in range(200):
+        r = run_sim(argv, inputs, 2 + seed % 3, RandomChooser(seed))
+        assert r.status == 0 and r.deadlock is None, (seed, r.status, r.exc, r.deadlock, r.stderr[-300:])
+        assert r.files == base.files, seed
+        seen.add(hashlib.sha1(repr(r.events).encode()).hexdigest())
+    print(f"200 random schedules: outputs equal the single-core run; {len(seen)} distinct event logs; {time.time() - t0:.1f}s; "
+          f"threads alive: {threading.active_count()}")
+    n = 0
+    for ch, r in dfs(lambda ch: run_sim(argv, inputs, 2, ch, fine=False), budget_s=5):
+        assert r.files == base.files and r.status == 0
+        n += 1
+    print(f"dfs (coarse, 5 s): {n} schedules, exhausted={dfs.state['exhausted']}")
+    bad = {"in.fastq": inputs["in.fastq"][:-20]}
+    r = run_sim(argv, bad, 2, RandomChooser(1))
+    print("truncated input: status", r.status, "deadlock", r.deadlock, "| stderr:", r.stderr.strip().splitlines()[-1][:100])
+
+
+if __name__ == "__main__":
+    _selftest()
